@@ -37,7 +37,11 @@ fn main() {
     let seed: u64 = arg(&args, "--seed").and_then(|s| s.parse().ok()).unwrap_or(1);
     let drv = arg(&args, "--drv").unwrap_or_else(|| "/verif/lean/.lake/build/bin/raindrv".into());
     let out = arg(&args, "--out");
-    let replay = arg(&args, "--replay-case");
+    // a case too long for the command line is passed as @file
+    let replay = arg(&args, "--replay-case").map(|r| match r.strip_prefix('@') {
+        Some(path) => std::fs::read_to_string(path).map(|t| t.trim_end().to_string()).unwrap_or(r.clone()),
+        None => r,
+    });
     let corpus = arg(&args, "--corpus").unwrap_or_else(|| "/verif/corpus".into());
     let rep = match comp.as_str() {
         "c12" => c12::run(&tier, seed, &drv, replay.as_deref(), &format!("{corpus}/C12")),
